@@ -94,6 +94,23 @@ pub fn generate(rng: &mut Rng, thorough: bool, out: &mut Out, values: bool) {
         let (q, r) = run_emit(trees);
         out.case(q, r);
     }
+    // sequences with repeated trees, emitted in memory and through scad_file! (the property's third
+    // observation point); the file cases use the C13 `file` op
+    for i in 0..(if thorough { 400 } else { 60 }) {
+        let k = rng.range(2, 6) as usize;
+        let mut trees: Vec<Scad> = (0..k).map(|_| g.tree(rng, 2)).collect();
+        let j = rng.below((k - 1) as u64) as usize;
+        trees[j + 1] = trees[j].clone();
+        if i % 3 == 0 {
+            trees[k - 1] = trees[0].clone();
+        }
+        let (q, r) = run_emit(trees);
+        out.case(q, r);
+    }
+    if !values {
+        let mut id = 500000u64;
+        crate::c13::dup_stream(rng, if thorough { 100 } else { 20 }, &mut id, out);
+    }
     // deep chains
     let deep = if thorough { vec![64, 500, 3000] } else { vec![64] };
     for d in deep {
@@ -109,6 +126,9 @@ pub fn generate(rng: &mut Rng, thorough: bool, out: &mut Out, values: bool) {
 pub fn replay(_toks: &[&str], _out: &mut Out, line: &str) -> bool {
     // rebuild the trees from the dump
     let toks: Vec<&str> = line.split(' ').collect();
+    if toks[0] == "file" {
+        return crate::c13::replay(_toks, _out, line);
+    }
     if toks[0] != "emit" {
         return false;
     }
